@@ -411,10 +411,15 @@ def bp_checks(ctx, rng, tmpdir):
     root = tempfile.mkdtemp(dir=tmpdir)
     # nested directory tree, plus decoys that must be ignored (not *.xtuml)
     paths = []
+    same_names = rng.random() < 0.5
     for n, part in enumerate(parts):
-        d = os.path.join(root, *['d%d' % rng.randint(0, 2) for _ in range(rng.randint(0, 3))])
+        sub = ['d%d' % rng.randint(0, 2) for _ in range(rng.randint(0, 3))]
+        if same_names:
+            # the BridgePoint layout <package>/<package>.xtuml: equal file names in different directories
+            sub.append('pkg%d' % n)
+        d = os.path.join(root, *sub)
         os.makedirs(d, exist_ok=True)
-        fn = os.path.join(d, 'm%d.xtuml' % n)
+        fn = os.path.join(d, ('types.xtuml' if n % 2 else 'model.xtuml') if same_names else 'm%d.xtuml' % n)
         with open(fn, 'w', newline='') as f:
             f.write(part)
         paths.append(fn)
@@ -437,7 +442,8 @@ def bp_checks(ctx, rng, tmpdir):
     zn = os.path.join(tmpdir, 'model%d.zip' % rng.randrange(10 ** 9))
     with zipfile.ZipFile(zn, 'w') as z:
         for n, part in enumerate(parts):
-            z.writestr('/'.join(['z%d' % rng.randint(0, 2) for _ in range(rng.randint(0, 2))] + ['p%d.xtuml' % n]),
+            z.writestr('/'.join(['z%d' % rng.randint(0, 2) for _ in range(rng.randint(0, 2))] +
+                                (['q%d' % n, 'part.xtuml'] if same_names else ['p%d.xtuml' % n])),
                        part.encode('utf-8'))
         z.writestr('readme.txt', 'INSERT INTO S_EDT VALUES ("00000000-0000-0000-0000-00000000007b");\n')
     l = ooaofooa.ModelLoader(load_globals=False)
